@@ -1,4 +1,5 @@
-"""C17 multimethods and visitors: registration histories (E2) + generated static_dispatcher instantiations + visitor subsets (E3)."""
+"""C17 multimethods and visitors: registration histories (E2) + generated static_dispatcher instantiations + visitor subsets (E3)
++ dispatcher objects as values (E2: dispatch calls, copies, moves, swaps and relocations as operations of the history)."""
 import itertools
 import os
 import vlib
@@ -34,18 +35,28 @@ def generate():
     return len(lines)
 
 
-def build():
-    """three binaries built in parallel: A dispatcher histories, B generated static_dispatcher instantiations, C visitors"""
+def build(tier="quick"):
+    """four binaries built in parallel: A dispatcher histories, B generated static_dispatcher instantiations, C visitors
+    (thorough: all 512 subsets of the nine handler bases instead of 128), D dispatcher objects as values"""
     n = generate()
     def one(part, opt):
-        defs = ["PART_A=%d" % (part == "A"), "PART_B=%d" % (part == "B"), "PART_C=%d" % (part == "C")]
+        defs = ["PART_A=%d" % (part == "A"), "PART_B=%d" % (part == "B"), "PART_C=%d" % (part == "C"), "PART_D=%d" % (part == "D")]
+        if part == "C" and tier == "thorough":
+            defs.append("VIS_FULL=1")
         return vlib.compile_cxx(SRC, "c17" + part, std="c++14", opt=opt, san="asan", flags=["-I" + GEN], defines=defs)
-    bins = vlib.parallel([lambda: one("A", "-O1"), lambda: one("B", "-O0"), lambda: one("C", "-O0")])
-    return {"A": bins[0], "B": bins[1], "C": bins[2]}, n
+    bins = vlib.parallel([lambda: one("A", "-O1"), lambda: one("B", "-O0"), lambda: one("C", "-O0"), lambda: one("D", "-O1")])
+    return {"A": bins[0], "B": bins[1], "C": bins[2], "D": bins[3]}, n
 
 
 def which(args):
-    return "B" if "--static-only" in args else "C" if "--visitors-only" in args else "A"
+    if "--static-only" in args:
+        return "B"
+    if "--visitors-only" in args:
+        return "C"
+    for flag in ("--inst", "--replay"):
+        if flag in args and args[args.index(flag) + 1].startswith("val-"):
+            return "D"
+    return "A"
 
 
 def plan(tier):
@@ -54,35 +65,58 @@ def plan(tier):
                 ["--inst", "basic2", "--depth", "4", "--max-states", "30000"], ["--inst", "basic2-static_cast", "--depth", "3"], ["--inst", "fast2", "--depth", "4", "--max-states", "30000"], ["--inst", "fast2-dynamic_cast", "--depth", "3"],
                 ["--inst", "basic2-extra", "--depth", "2"], ["--inst", "fast2-extra", "--depth", "2"],
                 ["--inst", "basic3", "--depth", "2"], ["--inst", "fast3", "--depth", "2"],
+                ["--inst", "val-basic2", "--depth", "4"], ["--inst", "val-basic1", "--depth", "4"], ["--inst", "val-basic2x1", "--depth", "3"],
+                ["--inst", "val-fast1"], ["--inst", "val-fast2", "--depth", "3"],
                 ["--static-only"], ["--visitors-only"]]
     return [["--inst", "basic1"], ["--inst", "fast1"],
             ["--inst", "basic2", "--depth", "5", "--max-states", "60000"], ["--inst", "basic2-static_cast", "--depth", "4", "--max-states", "60000"],
             ["--inst", "fast2", "--depth", "5", "--max-states", "60000"], ["--inst", "fast2-dynamic_cast", "--depth", "4", "--max-states", "60000"],
             ["--inst", "basic2-extra", "--depth", "3"], ["--inst", "fast2-extra", "--depth", "3"],
             ["--inst", "basic3", "--depth", "3", "--max-states", "30000"], ["--inst", "fast3", "--depth", "4", "--max-states", "30000"],
+            ["--inst", "val-basic2", "--depth", "5", "--trail", "2", "--max-states", "120000"], ["--inst", "val-basic1", "--depth", "5", "--trail", "2", "--max-states", "120000"],
+            ["--inst", "val-basic2x1", "--depth", "4", "--trail", "2"],
+            ["--inst", "val-fast1", "--trail", "2"], ["--inst", "val-fast2", "--depth", "4", "--trail", "2", "--max-states", "120000"],
             ["--static-only"], ["--visitors-only"]]
 
 
 def run(ctx):
-    b, n = build()
+    b, n = build(ctx.tier)
     dl = str(int(max(60, ctx.time_left() - 30)))
     vlib.parallel([(lambda a=a: ctx.run_harness(b[which(a)], a + ["--deadline", dl], tag="c17")) for a in plan(ctx.tier)])
     ctx.stats["generated_static_dispatcher_instantiations"] = n
     ctx.stats["evaluations"] = ctx.stats.get("transitions", 0) + ctx.stats.get("static_dispatch_cases", 0) + ctx.stats.get("visitor_cases", 0)
     ctx.stats["distinct_nontrivial"] = ctx.stats.get("states", 0)
+    ctx.note("part D (dispatcher objects as values): %d states, %d transitions of which %d dispatch operations and %d copy/move/swap/relocation/self-assignment/fresh operations; part C: %d visitor classes, %d accept calls "
+             "(%d with the own handler present, %d where only handlers of another flavour exist for the visited type)" % (
+                 ctx.stats.get("value_world_states", 0), ctx.stats.get("value_world_transitions", 0), ctx.stats.get("dispatch_transitions", 0), ctx.stats.get("copy_move_swap_relocate_transitions", 0),
+                 ctx.stats.get("visitor_classes", 0), ctx.stats.get("visitor_cases", 0), ctx.stats.get("visitor_cases_own_handler_present", 0), ctx.stats.get("visitor_cases_only_foreign_handlers_for_visited_type", 0)))
     ctx.rule = ("(A) BFS over registration/erasure histories of functor_dispatcher over basic_dispatcher (dynamic and static casting) and basic_fast_dispatcher, with 1, 2 and 3 dispatched arguments and with an undispatched "
                 "extra argument: insert<D...>(h) for EVERY type tuple over {A,B,C} and h in {h1,h2}, erase<D...> for every tuple (basic only); every history is replayed on a fresh dispatcher after resetting the "
                 "per-class static indices, so registration order determines the lazily assigned indices and table shapes; after EVERY transition dispatch is called on ALL 3^k argument tuples: registered => exactly that "
                 "handler once, arguments by identity in registered order, extra argument by identity; unregistered (never, erased, only a permutation registered) => an exception and no handler ran. "
                 "State = (handler map, index assignment). (B) static_dispatcher instantiated for every pair of the 15 ordered sub-lists of (A,B,C) (antisymmetric) and every sub-list (symmetric), all 9 argument pairs each. "
-                "(C) acyclic visitors: every subset of {A,B,C} as handled types x every visited type x {default, throwing} catch-all x {const, non-const}; cyclic visitor. distinct_nontrivial = dispatcher states")
+                "(C) acyclic visitors: a concrete visitor carries, per visited class T, any subset of three handler bases - own = visitor<T,int,c> (c = constness of the visited hierarchy), "
+                "other-constness = visitor<T,int,!c>, other-return-type = visitor<T,long,c>; every subset of the six own/other-constness bases x {none, all three} other-return-type bases (128 visitor classes; "
+                "thorough: all 512 subsets of the nine bases) x every visited type x {default, throwing} catch-all x {const, non-const} hierarchy: own handler present => exactly visit(T) of the own flavour once on the "
+                "object passed; absent => the catch-all policy and NO handler ran (a handler of another flavour is 'some other handler'); cyclic visitor. "
+                "(D) dispatcher objects as values: BFS over histories of S heap-allocated functor_dispatcher objects (S=2 over basic_dispatcher with 1 argument over {A,B,C} and 2 arguments over {A,B}; "
+                "S=1 over basic_dispatcher 2 arguments {A,B,C} and over basic_fast_dispatcher 1 and 2 arguments {A,B,C}) whose alphabet has, besides d<i>.insert<tuple>(h1|h2) (handler ids encode the object they "
+                "were registered through) and d<i>.erase<tuple>, the call d<i>.dispatch(tuple) for EVERY tuple as an operation (judged when executed), self assignment, relocation by copy/move construction (old object "
+                "destroyed), round trips through a copied/moved temporary, and for S=2 copy assignment, copy construction, move assignment, move construction and swap between the objects and replacement by a fresh D(); "
+                "model: one handler map per object, a copy/move target gets the source's map and is independent afterwards, a moved-from object is only used as an assignment/construction target; after EVERY transition "
+                "every live object dispatches ALL tuples against its own map (same oracle as A). State = per object (moved-from, handler map, trail of the last 1 (thorough 2) dispatched tuples, following copies and moves) + index assignment. "
+                "distinct_nontrivial = dispatcher states")
     ctx.assumptions += [
         "one fast dispatcher per hierarchy (the per-class index is process-global state, reset by the harness before every replay)",
         "the hierarchy has leaf classes only: base-before-derived ordering effects of the dynamic_cast chain are outside the statement",
         "2-argument histories are depth-bounded (quick 3, thorough 5 with a state cap); 3^9 handler maps x index orders cannot be exhausted",
+        "(D) only val-fast1 reaches fixpoint; the other value worlds are depth-bounded (quick 4/3, thorough 5/4 with a state cap). Nothing is demanded of a moved-from dispatcher. The fast dispatcher worlds hold ONE object "
+        "(relocated, self-assigned, round-tripped): two fast dispatchers on one hierarchy are outside the quantifier. The trail in the state key is an abstraction of 'what was dispatched recently' chosen by the "
+        "harness: hidden state that depends on older dispatches than the trail length can be merged away",
+        "(C) for a hierarchy base_visitable<R, c, ...> the handler registered for T is visitor<T, R, c>::visit; visitor<T, R, !c> and visitor<T, R', c> bases of the same visitor object are handlers for other hierarchies",
     ]
 
 
 def replay(ctx, rec):
-    b, _ = build()
+    b, _ = build(ctx.tier)
     ctx.run_harness(b[which(rec["args"])], rec["args"], tag="c17")
